@@ -4,6 +4,7 @@ import (
 	"bufio"
 	"fmt"
 	"log"
+	"math"
 	"os"
 	"path/filepath"
 	"strings"
@@ -1084,6 +1085,11 @@ func (ds *AnySource) ConfigurePulseLengths(nsamp, npre int) error {
 		nsamp < 1 || // require at least 1 sample
 		nsamp < npre+1 { // require at least one post trigger sample
 		return fmt.Errorf("ConfigurePulseLengths nsamp %v, npre %v are invalid", nsamp, npre)
+	}
+	// Record lengths are kept as int32 in the trigger state, and streams are trimmed to 2*nsamp+10 samples:
+	// a longer record cannot be handled (the arithmetic wraps and the next data block would end the server).
+	if nsamp > (math.MaxInt32-10)/2 {
+		return fmt.Errorf("ConfigurePulseLengths nsamp %v is too large", nsamp)
 	}
 	for _, dsp := range ds.processors { // all channels accept the lengths, or none is changed
 		if err := dsp.pulseLengthsAcceptable(nsamp, npre); err != nil {
